@@ -96,7 +96,7 @@ func vC13RunHandshake(c vSx) (cout vSx, obs vSx, oracle string) {
 			fmt.Fprintf(nc, "HTTP/1.1 %s\r\n%s%sSec-WebSocket-Accept: %s\r\n%s\r\n", status, up, conn, acc, ext)
 			io.Copy(ioutil_Discard{}, nc)
 		}()
-		d := Dialer{HandshakeTimeout: 3 * time.Second, EnableCompression: tamper == 6 || tamper == 7}
+		d := Dialer{HandshakeTimeout: 30 * time.Second, EnableCompression: tamper == 6 || tamper == 7}
 		cc, _, err := d.Dial("ws://"+ln.Addr().String()+"/", nil)
 		code, z := 0, false
 		switch {
@@ -196,7 +196,7 @@ func vC13RunHandshake(c vSx) (cout vSx, obs vSx, oracle string) {
 			req += "Content-Length: 0\r\n"
 		}
 		req += "\r\n"
-		nc.SetDeadline(time.Now().Add(3 * time.Second))
+		nc.SetDeadline(time.Now().Add(30 * time.Second))
 		nc.Write([]byte(req))
 		resp, err := http.ReadResponse(bufio.NewReader(nc), nil)
 		select {
@@ -204,7 +204,7 @@ func vC13RunHandshake(c vSx) (cout vSx, obs vSx, oracle string) {
 			if sc != nil {
 				defer sc.Close()
 			}
-		case <-time.After(2 * time.Second):
+		case <-time.After(30 * time.Second):
 			oracle = "server handler did not report"
 		}
 		if err == nil && resp.StatusCode == 101 {
